@@ -1385,8 +1385,9 @@ class Store:
             else:
                 # if no processes provided, copy the mother's processes
                 mother_processes = self.get_path(mother_path).get_processes()
-                processes = copy.deepcopy(mother_processes)
-                processes = processes or {}
+                mother_steps = self.get_path(mother_path).get_steps()
+                processes = copy.deepcopy(mother_processes) or {}
+                deep_merge(processes, copy.deepcopy(mother_steps) or {})
 
             # get the daughter topology
             if 'topology' in daughter:
